@@ -808,6 +808,7 @@ func bip68(c *ctx, timeBased bool, excess uint32) *refchain.Block {
 // ---------------------------------------------------------------------------------------------
 
 type Config struct {
+	Halving  bool // coinbase-only chain across the first subsidy halving (C04 thorough only)
 	Retarget bool // coinbase-only chain across several 2016-block epochs (C05 only)
 	Name     string
 	Testnet  bool
@@ -820,6 +821,9 @@ func params(cfg Config, seed uint64) refchain.Params {
 	p := chainsim.DefaultParams(seed, cfg.Testnet)
 	if cfg.Late {
 		p.BIP34, p.BIP66, p.BIP65, p.CSV, p.Segwit, p.Taproot = 104, 107, 110, 113, 118, 124
+	}
+	if cfg.Halving {
+		p.GenesisTime = 1420070400 // 2015: 210,000 blocks at 600 s spacing end in 2019, well before "now"
 	}
 	return p
 }
@@ -843,6 +847,10 @@ func Child(prop string, seed int64, tier string, cfgName string, stateFile strin
 	g := s.G
 	if cfg.Retarget {
 		runRetarget(run, s, r, cfg)
+		return
+	}
+	if cfg.Halving {
+		runHalving(run, s, r)
 		return
 	}
 	c := &ctx{s: s, g: g, r: r}
@@ -973,6 +981,59 @@ func Child(prop string, seed int64, tier string, cfgName string, stateFile strin
 	}
 	if run.WantSample() {
 		run.Sample(map[string]interface{}{"config": cfg.Name, "final_height": s.Ref.Tip.Height, "journal_tail": lastN(s.Log, 12)})
+	}
+}
+
+// runHalving connects a coinbase-only chain across the first subsidy halving and offers, at heights
+// 209,999 / 210,000 / 210,001, coinbases claiming subsidy+1 (refused), the previous era's subsidy
+// (refused from 210,000 on) and exactly the subsidy (accepted).
+func runHalving(run *vlib.Run, s *chainsim.Sim, r *vlib.Rand) {
+	g := s.G
+	g.KeepViews = false
+	s.CompareUTXOEvery = 9973
+	s.XCheckEvery = 0
+	claim := func(tip *refchain.Node, v uint64) *refchain.Block {
+		return g.Build(chainsim.BlockSpec{Parent: tip, CoinbaseOuts: []refchain.TxOut{g.OutTrue(v)}, NoCommitment: true})
+	}
+	for s.Ref.Tip.Height < 210002 {
+		tip := s.Ref.Tip
+		h := tip.Height + 1
+		sub := refchain.Subsidy(h)
+		if h >= 209998 || h%30011 == 0 {
+			s.CompareUTXOEvery = 1
+			for _, v := range []uint64{sub + 1, 2 * sub, 50 * 100000000} {
+				if v <= sub {
+					continue
+				}
+				rr, _, ok := s.Offer(claim(tip, v), "halving/overclaim")
+				if !ok {
+					return
+				}
+				if rr.Reason != "bad-cb-amount" {
+					run.Inconclusive("halving calibration: expected bad-cb-amount at height %d, reference says %s/%s", h, rr.Stage, rr.Reason)
+					return
+				}
+				run.Distinct("probe_x_height", "halving/overclaim", h, v)
+			}
+		} else {
+			s.CompareUTXOEvery = 9973
+		}
+		rr, _, ok := s.Offer(claim(tip, sub), "valid/halving-chain-block")
+		if !ok {
+			return
+		}
+		if rr.Stage != "connected" {
+			run.Inconclusive("halving chain: reference refuses its own block at %d: %s", h, rr.Reason)
+			return
+		}
+		g.DropView(tip.Hash)
+		if h%20000 == 0 {
+			s.N.Ch.Idle()
+		}
+	}
+	run.Distinct("probes", "halving/overclaim")
+	if run.WantSample() {
+		run.Sample(map[string]interface{}{"config": "halving", "final_height": s.Ref.Tip.Height, "subsidy_at_209999": refchain.Subsidy(209999), "subsidy_at_210000": refchain.Subsidy(210000)})
 	}
 }
 
@@ -1231,6 +1292,9 @@ func Configs(tier string) []Config {
 		{Name: "early-compressed", Late: false, Compress: true, Blocks: 130},
 		{Name: "testnet-late", Late: true, Testnet: true, Blocks: 140},
 	}
+	if tier == "thorough" {
+		l = append(l, Config{Name: "halving", Halving: true})
+	}
 	if tier == "quick" {
 		l = append(l, Config{Name: "retarget-mainnet", Retarget: true, Blocks: 4*2016 + 20}, Config{Name: "retarget-testnet", Retarget: true, Testnet: true, Blocks: 2*2016 + 20})
 	} else {
@@ -1322,6 +1386,9 @@ func Main(prop string) {
 	for i := 0; i < reps; i++ {
 		for _, c := range Configs(run.Tier) {
 			if c.Retarget && (prop != "C05" || i >= run.N(1, 6)) {
+				continue
+			}
+			if c.Halving && (prop != "C04" || i >= 1) {
 				continue
 			}
 			jobs = append(jobs, job{c, run.Seed*1000 + int64(i), ""})
